@@ -188,7 +188,72 @@ fn explore(name: &str, mname: &str, m: &Small, thorough: bool, acc: &mut Acc) ->
     (states, transitions, depth, closed)
 }
 
+/// Matrices beyond 64 columns (a check or a variable of degree 17..257, 1025 rows): every history of
+/// two decode calls over a menu of 4 vectors x 2 limits, second call compared with a fresh decoder.
+fn explore_big(name: &str, mname: &str, n: usize, rows: &[Vec<usize>], acc: &mut Acc) -> u64 {
+    let build = || {
+        let mut h = ldpc_toolbox::sparse::SparseMatrix::new(rows.len(), n);
+        for (i, r) in rows.iter().enumerate() {
+            for &j in r {
+                h.insert(i, j);
+            }
+        }
+        h
+    };
+    let vecs: Vec<Vec<f64>> = vec![
+        vec![2.0; n],
+        vec![-6.0; n],
+        (0..n).map(|j| if j % 3 == 0 { -3.0 } else { 6.0 }).collect(),
+        (0..n).map(|j| if j % 2 == 0 { 1.3863 } else { -1.3863 }).collect(),
+    ];
+    let ops: Vec<(usize, usize)> = (0..vecs.len()).flat_map(|v| [(v, 1usize), (v, 3)]).collect();
+    let fresh: Vec<Option<Dec>> = ops.iter().map(|&(v, l)| guard(|| dec::factory_build(name, build()).unwrap().decode(&vecs[v], l)).ok()).collect();
+    let mut transitions = 0u64;
+    for a in 0..ops.len() {
+        for b in 0..ops.len() {
+            transitions += 1;
+            acc.evals += 1;
+            acc.nontrivial += 1;
+            let key = format!("stateless:{}:{}:[decode(v{},{}), decode(v{},{})]", name, mname, ops[a].0, ops[a].1, ops[b].0, ops[b].1);
+            let replay = json!({"kind": "big", "name": name, "matrix": mname});
+            let got = guard(|| {
+                let mut d = dec::factory_build(name, build()).unwrap();
+                let _ = d.decode(&vecs[ops[a].0], ops[a].1);
+                d.decode(&vecs[ops[b].0], ops[b].1)
+            });
+            match (&got, &fresh[b]) {
+                (Ok(g), Some(f)) if g == f => {}
+                (Ok(g), Some(f)) => {
+                    let short = |d: &Dec| {
+                        let (tag, o) = match d {
+                            Ok(o) => ("Ok", o),
+                            Err(o) => ("Err", o),
+                        };
+                        let diff = match (g, f) {
+                            (Ok(x), Ok(y)) | (Err(x), Err(y)) | (Ok(x), Err(y)) | (Err(x), Ok(y)) => x.codeword.iter().zip(y.codeword.iter()).position(|(a, b)| a != b),
+                        };
+                        format!("{}(iterations {}, first differing bit {:?})", tag, o.iterations, diff)
+                    };
+                    acc.violate(key, format!("second call returns {} but a fresh decoder returns {}", short(g), short(f)), replay)
+                }
+                (Err(e), Some(_)) => acc.violate(key, format!("second call panicked ({}) but a fresh decoder does not", e), replay),
+                (Ok(_), None) => acc.violate(key, "fresh decoder panics but a used one does not".into(), replay),
+                (Err(_), None) => {}
+            }
+        }
+    }
+    transitions
+}
+
 fn replay_element(v: &Value, acc: &mut Acc) {
+    if v["kind"] == "big" {
+        for (mname, n, rows) in crate::c01::big_matrices(true) {
+            if Some(mname.as_str()) == v["matrix"].as_str() {
+                explore_big(v["name"].as_str().unwrap_or(""), &mname, n, &rows, acc);
+            }
+        }
+        return;
+    }
     let name = v["name"].as_str().unwrap();
     let mname = v["matrix"].as_str().unwrap();
     let thorough = v["thorough_menu"].as_bool().unwrap_or(false);
@@ -251,6 +316,30 @@ pub fn run(run: &Run) -> i32 {
             all_closed &= closed;
             per.push(json!({"impl": name, "matrix": mname, "states": s, "transitions": t, "depth": d, "closed": closed}));
         }
+        // large degrees / more than 1024 rows: depth-2 histories
+        let big = crate::c01::big_matrices(run.thorough());
+        let mut bigjobs: Vec<(String, usize)> = Vec::new();
+        for name in &names {
+            for i in 0..big.len() {
+                bigjobs.push((name.clone(), i));
+            }
+        }
+        let counts: Vec<(Acc, u64)> = bigjobs
+            .par_iter()
+            .map(|(name, i)| {
+                let mut a = Acc::new();
+                let t = explore_big(name, &big[*i].0, big[*i].1, &big[*i].2, &mut a);
+                (a, t)
+            })
+            .collect();
+        let mut big_transitions = 0u64;
+        for (a, t) in counts {
+            acc = acc.merge(a);
+            big_transitions += t;
+        }
+        graph.1 += big_transitions;
+        graph.2 += big_transitions;
+        extra.insert("big_matrix_depth2_transitions".into(), json!(big_transitions));
         acc.sample(|| json!({"history": ["decode(single-error vector, 6)", "decode(contradiction vector, 0)"], "note": "every history over the op menu is covered up to closure; see per_machine"}));
         extra.insert("per_machine".into(), Value::Array(per));
         extra.insert("machines".into(), json!(machines.len()));
@@ -260,7 +349,7 @@ pub fn run(run: &Run) -> i32 {
         run,
         acc,
         Coverage {
-            rule: "for each of the 36 implementations x 8 matrices (regular, with degree-1 and degree-3 variables, punctured, chain, row weights 3-5-4-5, Hamming, check degrees 9-10, check degrees 17-9-18): BFS over histories of decode(v, L) calls, v from a menu of ~14 (23 thorough) LLR vectors (codeword signs, single/double errors, contradiction, zeros, +-1e30, all-negative, +-1e-46, 8-bit boundary magnitudes, the historical limit-0 pair) x L in {0,1,2,6[,25]}; state key = the decoder's full derived Debug dump (every field, floats in round-trip form), so merged states are identical objects; search to closure (depth cap 20, 4000 states per machine and 200 violations per machine as safety nets, reported if hit). Oracle per transition: result equals a freshly built decoder's. Non-trivial = transition from a non-initial state whose previous call was not a zero-iteration shortcut.".into(),
+            rule: "for each of the 36 implementations x 8 matrices (regular, with degree-1 and degree-3 variables, punctured, chain, row weights 3-5-4-5, Hamming, check degrees 9-10, check degrees 17-9-18): BFS over histories of decode(v, L) calls, v from a menu of ~14 (23 thorough) LLR vectors (codeword signs, single/double errors, contradiction, zeros, +-1e30, all-negative, +-1e-46, 8-bit boundary magnitudes, the historical limit-0 pair) x L in {0,1,2,6[,25]}; state key = the decoder's full derived Debug dump (every field, floats in round-trip form), so merged states are identical objects; search to closure (depth cap 20, 4000 states per machine and 200 violations per machine as safety nets, reported if hit). Oracle per transition: result equals a freshly built decoder's. In addition, for matrices with a check or a variable of degree 17, 65, 129, 257 and a 1025-row block-diagonal matrix (thorough: more), every history of two decode calls over 4 vectors x 2 limits (depth-bounded, not closed). Non-trivial = transition from a non-initial state whose previous call was not a zero-iteration shortcut.".into(),
             exhaustive: all_closed,
             extra,
             graph: Some(graph),
